@@ -244,12 +244,12 @@ def runC27Status (arg : String) : String :=
   | [obs, now, hex] =>
     match obs.toNat?, now.toInt?, parseHex hex with
     | some _, some _, some file =>
-      match (decodeRec P Generated.storedStatus file).res with
-      | .error _ => "failed"
-      | .ok (r, _) => s!"ok {showRecord r}"
+      match (readStatus P Generated.storedStatus Generated.statusUnreadableIsNone file).1 with
+      | .failed => "failed"
+      | .missing => "missing"
+      | .ok r => s!"ok {showRecord r}"
     | _, _, _ => "bad-op"
   | _ => "bad-op"
-
 
 /-! ## Archives (C27) -/
 
